@@ -7,6 +7,8 @@
 //! print invocations interleaved with environment actions on the output file (line-ending
 //! conversion, truncation, deletion, ...) and edits of the input enum.
 
+mod pretty;
+
 use defsrc::{decorate, normalise_enum, reference_strip, Definition};
 use quote::ToTokens;
 use simcore::*;
@@ -537,6 +539,7 @@ fn exec_in(world: &World, sc: &Scenario, dir: &Path, stats: &mut Stats) -> Optio
                 count_faults(&inv.log, stats);
                 if let Some(l) = touched_out(&inv.log) { fail!("K4-writes", stepno, "stdout mode touched the output file: {l}"); }
                 let hard = hard_rules(plan, *fmt);
+                let expected = if *fmt { pretty::pretty(&expected) } else { expected };
                 let want = format!("{expected}\n");
                 if inv.code == 0 && inv.stdout != want.as_bytes() {
                     let at = inv.stdout.iter().zip(want.as_bytes()).position(|(a, b)| a != b).unwrap_or(inv.stdout.len().min(want.len()));
@@ -553,6 +556,7 @@ fn exec_in(world: &World, sc: &Scenario, dir: &Path, stats: &mut Stats) -> Optio
                 if let Some((o, w)) = world.content_verdict(&d) { fail!(o, stepno, "{}", w); }
                 let mut args = vec!["in.rs", "--output", "out.rs"];
                 if *fmt { args.push("--format"); }
+                let expected = if *fmt { pretty::pretty(&expected) } else { expected };
                 let before = FileState::read(&outp);
                 let inv = world.invoke(dir, &args, plan);
                 stats.invocations += 1;
@@ -583,6 +587,7 @@ fn exec_in(world: &World, sc: &Scenario, dir: &Path, stats: &mut Stats) -> Optio
                 let before = FileState::read(&outp);
                 let mut args = vec!["in.rs", "--output", "out.rs", "--check"];
                 if *fmt { args.push("--format"); }
+                let expected = if *fmt { pretty::pretty(&expected) } else { expected };
                 let inv = world.invoke(dir, &args, plan);
                 stats.invocations += 1;
                 stats.hit(if *fmt { "op_check_format" } else { "op_check" });
@@ -673,7 +678,9 @@ fn gen_scenario(rng: &mut Rng, defs: &[Definition], index: u64, faults: bool) ->
     if faults && rng.chance(1, 2) {
         // motif: a healthy write, then the environment (or a failed rewrite) disturbs the file, then a check
         let clean = Plan { hash_seed: to_hex(&rng.bytes16()), rules: vec![], rustfmt: "pass".into() };
-        steps.push(Step::Write { fmt: false, plan: clean });
+        // half of the motifs work on the many-line (formatted) file, where line endings matter
+        let motif_fmt = rng.chance(1, 2);
+        steps.push(Step::Write { fmt: motif_fmt, plan: clean });
         steps.push(match rng.below(10) {
             0 | 1 => Step::Mutate(Mut::ToCrlf),
             2 => Step::Mutate(Mut::AddFinalNewline),
@@ -687,8 +694,10 @@ fn gen_scenario(rng: &mut Rng, defs: &[Definition], index: u64, faults: bool) ->
         });
         if rng.chance(1, 3) { steps.push(Step::Mutate(if rng.chance(1, 2) { Mut::ToCrlf } else { Mut::ToLf })); }
         let with_faults = rng.chance(1, 3);
-        let fmt = rng.chance(1, 5);
-        steps.push(Step::Check { fmt, plan: gen_plan(rng, 1, with_faults) });
+        let fmt = if rng.chance(1, 6) { !motif_fmt } else { motif_fmt };
+        let mut plan = gen_plan(rng, 1, with_faults);
+        if !with_faults { plan.rustfmt = "pass".into(); }
+        steps.push(Step::Check { fmt, plan });
     }
     for _ in 0..n {
         let w: [u32; 7] = if faults { [24, 8, 26, 8, 6, 8, 20] } else { [30, 0, 40, 0, 30, 0, 0] };
